@@ -25,6 +25,7 @@ from pvc.contract import Call, Contract
 from pvc.interp import GenV, PyDict, Splat
 from pvc.sym import Mat, PyRaise, SInt, SMat, SObj, SReal, SSeq, Unsupported, mat_el, to_int, to_real, wrap
 from pvc.symtheory import Env, Expr, ExprV, Str, StrV, Sym, SymV, diff_f, ev_f, lookup_f, name_f
+from pvc.sympy_model import closed_f
 
 # ------------------------------------------------------------------------------------------------
 # BasicBlock.execute (caller side): D-lam + C01.3
@@ -1073,6 +1074,10 @@ class ConstructProcessNoise(Contract):
         ui, pn, ekf = call.ui, call.pn, call.ekf
         k = card_f(ui.U.term)
         n = card_f(ui.S.term)
+        if outcome[0] == "raise" and outcome[1] == "ModelConstructionError" and P.ghost.get("no_closed_form"):
+            # _jacobian's contract: a derivative sympy cannot give in closed form is refused, never compiled
+            P.oblige(f"{pre}.refuses_only_derivatives_without_closed_form", z3.Or(*P.ghost["no_closed_form"]))
+            return
         if outcome[0] == "raise":
             P.oblige(f"{pre}.noise_arity.only_assertionerror", z3.BoolVal(outcome[1] == "AssertionError"), note=f"raises {outcome[1]}")
             P.oblige(f"{pre}.noise_arity.raises_only_if", pn.n != k)
@@ -1103,6 +1108,8 @@ class ConstructProcessNoise(Contract):
                 P.oblige(f"{pre}.{fld}.row_major_layout", n * w == 0)  # empty program: only correct when there is nothing to differentiate
             else:
                 P.oblige(f"{pre}.{fld}.row_major_layout", z3.Implies(z3.And(i >= 0, i < n, j >= 0, j < w), ex.at(i * w + j).z == diff_f(F_i, X(j))))
+                # requires of BasicBlock (premise of D-cse / D-simp): no unevaluated Derivative among the statements
+                P.oblige(f"{pre}.{fld}.statements_in_closed_form", z3.Implies(z3.And(i >= 0, i < n, j >= 0, j < w), closed_f(ex.at(i * w + j).z)), theory="euf")
             al = blk.fields["_arglist"]
             P.oblige(f"{pre}.{fld}.arglist_is_models", z3.BoolVal(al is ekf.fields["_state_model"].fields["arglist"]))
         sm = ekf.fields.get("_state_model")
@@ -1111,11 +1118,97 @@ class ConstructProcessNoise(Contract):
 
 def construct_callees():
     c = dict(common.COMMON_APPLY)
+    c[RealJacobian.key] = RealJacobian()
     c[BasicBlockInit.key] = BasicBlockInit()
     c[ModelInitApply.key] = ModelInitApply()
     c[gate.AssertValidCovariance.key] = gate.AssertValidCovariance()
     return c
 
+
+
+# ------------------------------------------------------------------------------------------------
+# _jacobian: partial derivatives of the REAL functions (defect D12)
+
+
+class RealJacobian(Contract):
+    """python._jacobian(matrix, symbols)
+    requires matrix is an n x 1 column of expressions, symbols a list of w symbols (all existing before the call: D-dummy).
+    ensures  raises nothing but ModelConstructionError; on return the result is n x w with
+                 result[r, c] = diff(matrix[r], symbols[c])      (the SPEC derivative of the real function, not sympy's complex one)
+                 closed_form(result[r, c])                       (no unevaluated Derivative reaches BasicBlock: premise of D-cse/D-simp)
+    The body renames the symbols to real-valued Dummy symbols, differentiates, and renames back: the proof is that the second
+    renaming undoes the first on every pre-existing symbol, that the differentiation variables are renamed by the same map, and
+    D-ren (differentiation commutes with injective renaming)."""
+
+    key = "formak.python:_jacobian"
+    prefix = "C03.py._jacobian"
+
+    def setup(self, I):
+        from pvc.sympy_model import SymMatrix, dummy_axioms, dummy_free_f, is_dummy
+
+        P = I.path
+        P.ghost["site"] = self.prefix
+        n, w = z3.Int("n_rows"), z3.Int("n_symbols")
+        P.assume(z3.And(n >= 0, w >= 0))
+        F = z3.Function("matrix_row", z3.IntSort(), Expr)
+        X = z3.Function("differentiation_symbol", z3.IntSort(), Sym)
+        r, c = z3.Int("r0"), z3.Int("c0")
+        dummy_axioms(P)
+        # D-dummy: the arguments exist before any Dummy of this call is created
+        P.facts.append(z3.ForAll([r], dummy_free_f(F(r)), patterns=[F(r)]))
+        P.facts.append(z3.ForAll([c], z3.Not(is_dummy(X(c))), patterns=[X(c)]))
+        m = SymMatrix(SInt(n), 1, lambda a, b: F(a))
+        syms = SSeq(SInt(w), lambda q: SymV(X(q)), "symbols")
+        syms.pvc_type = "list"
+        return Call([m, syms], {}, n=n, w=w, F=F, X=X)
+
+    def post(self, I, call, outcome):
+        from pvc.sympy_model import SymMatrix, closed_f
+
+        P = I.path
+        pre = self.prefix
+        if outcome[0] == "raise":
+            P.oblige(f"{pre}.only_modelconstructionerror", z3.BoolVal(outcome[1] == "ModelConstructionError"), note=f"raises {outcome[1]}")
+            return
+        res = outcome[1]
+        ok = isinstance(res, SymMatrix)
+        P.oblige(f"{pre}.returns_matrix", z3.BoolVal(ok))
+        if not ok:
+            return
+        i, j = z3.Int("i_any"), z3.Int("j_any")
+        rng = z3.And(i >= 0, i < call.n, j >= 0, j < call.w)
+        P.oblige(f"{pre}.shape", z3.And(to_int(res.rows) == call.n, to_int(res.cols) == call.w))
+        P.oblige(f"{pre}.entries_in_closed_form", z3.Implies(rng, closed_f(res.cell(i, j))), theory="euf")
+        P.oblige(f"{pre}.entries_are_the_real_partial_derivatives", z3.Implies(rng, res.cell(i, j) == diff_f(call.F(i), call.X(j))), theory="euf")
+
+    def apply(self, I, args, kwargs):
+        from pvc.interp import as_seq2
+        from pvc.sympy_model import SymMatrix, closed_f
+
+        P = I.path
+        m, X = args[0], args[1]
+        if not isinstance(m, SymMatrix):
+            raise Unsupported("_jacobian of a non-matrix")
+        X = X if isinstance(X, SSeq) else as_seq2(X)
+        cond = z3.Const(P.names.fresh("derivative_without_closed_form"), z3.BoolSort())
+        P.ghost.setdefault("no_closed_form", []).append(cond)
+        I.raise_if(cond, "ModelConstructionError")
+        cell = m.cell
+        # the result as a named table D(r, c) with its two defining clauses (keeps the trigger free of the callers' index arithmetic)
+        D = z3.Function(P.names.fresh("real_jacobian"), z3.IntSort(), z3.IntSort(), Expr)
+        r, c = z3.Int("jr!r"), z3.Int("jr!c")
+        rng = z3.And(r >= 0, r < to_int(m.rows), c >= 0, c < X.len_z())
+        P.facts.append(z3.ForAll([r, c], z3.Implies(rng, z3.And(D(r, c) == diff_f(cell(r, z3.IntVal(0)), X.at(c).z), closed_f(D(r, c)))), patterns=[D(r, c)]))
+        out = SymMatrix(m.rows, X.len_z(), lambda a, b: D(a, b))
+        return out
+
+
+def closed_inputs(P, d):
+    """accepted definitions: the user's expressions are in closed form (no unevaluated Derivative / Integral / Subs)"""
+    from pvc.sympy_model import closed_f
+
+    x = z3.Const(f"ci!{d.name if hasattr(d, 'name') else id(d)}", d.ksort if hasattr(d, "ksort") else Sym)
+    P.facts.append(z3.ForAll([x], closed_f(d.get(x)), patterns=[d.get(x)]))
 
 # ------------------------------------------------------------------------------------------------
 # _construct_sensors: per-sensor noise containers and flattened sensor-Jacobian programs
@@ -1234,6 +1327,9 @@ class ConstructSensors(Contract):
 
         P = I.path
         pre = self.prefix
+        if outcome[0] == "raise" and outcome[1] == "ModelConstructionError" and P.ghost.get("no_closed_form"):
+            P.oblige(f"{pre}.refuses_only_derivatives_without_closed_form", z3.Or(*P.ghost["no_closed_form"]))
+            return
         if outcome[0] == "raise":
             P.oblige(f"{pre}.no_exception_for_matching_noise", z3.BoolVal(False), note=f"raises {outcome[1]}")
             return
@@ -1271,6 +1367,7 @@ class ConstructSensors(Contract):
                     P.define(rm.law(i, j), "D-diff: iterating a sympy Matrix is row-major")
                 P.oblige(f"{pre}.{tag}.jacobian_length", ex.len_z() == m * w)
                 P.oblige(f"{pre}.{tag}.jacobian_row_major_layout", z3.Implies(z3.And(i >= 0, i < m, j >= 0, j < w), ex.at(i * w + j).z == diff_f(sm.get(sk(i)), X(j))))
+                P.oblige(f"{pre}.{tag}.jacobian_statements_in_closed_form", z3.Implies(z3.And(i >= 0, i < m, j >= 0, j < w), closed_f(ex.at(i * w + j).z)), theory="euf")
                 al = blk.fields["_arglist"]
                 P.oblige(f"{pre}.{tag}.jacobian_arglist", z3.And(al.len_z() == w, z3.Implies(z3.And(j >= 0, j < w), al.at(j).z == X(j))))
         for fld in ("innovations", "sensor_prediction_uncertainty"):
@@ -1280,6 +1377,7 @@ class ConstructSensors(Contract):
 
 def sensors_callees():
     c = dict(common.COMMON_APPLY)
+    c[RealJacobian.key] = RealJacobian()
     c[BasicBlockInit.key] = BasicBlockInit()
     c[SensorModelInitApply.key] = SensorModelInitApply()
     c[FromDictApply.key] = FromDictApply()
